@@ -201,7 +201,33 @@ def build() -> Check:
             jit = t.kinds("JITTER")
             if jit:
                 a = jit[-1].data.get("arg_v")
-                capped = isinstance(a, Sym) and a.parts and a.parts[0] == "MIN" and any("max_delay" in x.key() for x in a.parts[1])
+                def capped_by_max(v_):
+                    # min(.., <max delay>, ..); or max(<capped>, c) with a constant c <= 1 (a floor at 0 / at the 1 s minimum does not lift the cap)
+                    if not (isinstance(v_, Sym) and v_.parts):
+                        return False
+                    if v_.parts[0] == "MIN":
+                        return any("max_delay" in x.key() or capped_by_max(x) for x in v_.parts[1])
+                    if v_.parts[0] == "MAX":
+                        rest = [x for x in v_.parts[1] if not (isinstance(x, Const) and isinstance(x.value, (int, float)) and x.value <= 1)]
+                        return bool(rest) and all(capped_by_max(x) for x in rest)
+                    return False
+                capped = capped_by_max(a)
+
+                def floored(v_):
+                    # a finite lower bound: max(.., c, ..) with a constant; min(..) of floored values; a constant. `initial * rate ** n` alone has none:
+                    # for a negative float rate one step below the overflow it is -inf WITHOUT an exception, and math.ceil(-inf) raises (g3_late2 #2)
+                    if isinstance(v_, Const):
+                        return isinstance(v_.value, (int, float))
+                    if not (isinstance(v_, Sym) and v_.parts):
+                        return False
+                    if v_.parts[0] == "MAX":
+                        return any(floored(x) for x in v_.parts[1])
+                    if v_.parts[0] == "MIN":
+                        return all(floored(x) or "max_delay" in x.key() for x in v_.parts[1]) and any(floored(x) for x in v_.parts[1])
+                    return False
+                if a is not None and not floored(a) and not any("OverflowError" in str(k) for k, _v in t.pc):
+                    bad.append((f"pre-jitter delay {a.key()} has no finite lower bound: a negative backoff rate can make the product -inf without raising, and the rounding "
+                                "that follows (math.ceil) raises OverflowError - the strategy fails at one attempt number and works at its neighbours", t))
                 if not capped:
                     bad.append((f"pre-jitter delay {a.key() if a else None} is not capped by the configured maximum", t))
                 if isinstance(a, Sym) and "attempts_made" not in a.key():
